@@ -34,3 +34,28 @@ def ret(name='r'):
 
 HEAD = [Prelude('head.rs'), Prelude('tag.rs'), Prelude('serspec.rs')]
 TAIL = [Raw('\n} // verus!\n')]
+
+R2 = 'R2-io-Write->VWrite'
+R3 = 'R3-io-Read->VRead'
+R14 = 'R14-to_be_bytes'
+
+TO_BE = ('.to_be_bytes()', '.to_be_bytes_v()', None, R14)
+
+
+def io_head():
+    return [Decl(CONST, 'enum', 'DigestAlgorithm'), Prelude('io.rs')]
+
+
+WRITE_POST = '''    ensures match r {
+        Ok(()) => final(out).sunk() == %(onto)s,
+        Err(_) => pre(old(out).sunk(), final(out).sunk()) && pre(final(out).sunk(), %(onto)s),
+    },'''
+
+
+def tag_instances():
+    return Raw('pub struct IndexSignatureTag { pub v: u32 }\npub struct IndexTag { pub v: u32 }\n'
+               'impl Copy for IndexSignatureTag {} impl Clone for IndexSignatureTag { fn clone(&self) -> Self { *self } }\n'
+               'impl Copy for IndexTag {} impl Clone for IndexTag { fn clone(&self) -> Self { *self } }\n'
+               'impl Tag for IndexSignatureTag { open spec fn spec_to_u32(&self) -> u32 { self.v } fn to_u32(&self) -> u32 { self.v } }\n'
+               'impl Tag for IndexTag { open spec fn spec_to_u32(&self) -> u32 { self.v } fn to_u32(&self) -> u32 { self.v } }\n',
+               'R5 tag instances')
